@@ -60,7 +60,9 @@ def buckets(t):
     if k == "any": return {"*"}
     if k in ("literal", "enum"): return {"lit:" + t.py} if k == "enum" else {"*lit"}
     if k == "dataclass": return {"cls:" + t.py}
-    if k == "bool": return {"bool", "int"} if False else {"bool"}
+    if k == "tuple": return {"tuple:%d" % len(t.kids)}       # fixed-length tuples are told apart by their length
+    if k == "vtuple": return {"tuple:*"}
+    if k == "namedtuple": return {"tuple:%d" % len(t.fields), "cls:" + t.py}
     return {BUCKET.get(k, k)}
 
 
@@ -92,6 +94,7 @@ def ambiguous_union(t):
             if "int" in b: b = b | {"bool-or-int"}
             if "bool" in b: b = b | {"bool-or-int"}          # bool is an int
             if "*" in b or "*" in seen or (b & seen): return True
+            if any(x.startswith("tuple:") for x in b) and any(x.startswith("tuple:") for x in seen) and ("tuple:*" in b or "tuple:*" in seen): return True
             seen |= b
     return any(ambiguous_union(k) for k in t.kids)
 
@@ -105,7 +108,7 @@ def bijective(t):
 def run(prop, seed, budget, ctx):
     from apischema import deserialize, serialize, ValidationError
     rnd = random.Random(seed * 31 + sum(map(ord, prop))); pool = Pool(); g = Gen(rnd, pool, None)
-    g.kinds = g.kinds + ["sequence"]
+    g.kinds = g.kinds + ["sequence", "aggregate"]
     types = [g.ty(3) for _ in range(300 * budget)]
     mod = build_module(pool.source(), f"{prop}_{seed}"); ns = dict(vars(mod))
     reqs, meta, failures, hist, distinct, samples = [], [], [], collections.Counter(), set(), []
@@ -147,7 +150,13 @@ def run(prop, seed, budget, ctx):
                             if py_proto(a) != py_proto(s): why.append("serialize(v)-differs-from-serialize(type(v),v)")
                         except Exception as e: why.append("serialize(v)-raises:" + type(e).__name__)
                     # omission rule on objects at the root: a key is absent exactly when None / default and the option asks for it
-                    if t.kind == "dataclass" and isinstance(s, dict):
+                    if t.kind == "typeddict" and isinstance(s, dict) and isinstance(v, dict):
+                        # a TypedDict emits its present keys (declared ones first, then extras under additional_properties), minus None keys under exclude_none
+                        declared = [f["alias"] for f in t.fields]
+                        w = [k for k in declared if k in v and not (v[k] is None and so["exclude_none"] and declares_none(next(f for f in t.fields if f["alias"] == k)["ty"]))]
+                        w += [k for k in v if k not in declared] if so["ap"] else []
+                        if sorted(s) != sorted(w): why.append("emitted-keys-differ-from-the-omission-rule"); case["expected_keys"] = w
+                    if t.kind == "dataclass" and isinstance(s, dict) and "aggregate" not in t.features():
                         w = omission_spec(t, v, so)
                         if w is not None and list(s) != w:
                             why.append("emitted-keys-differ-from-the-omission-rule"); case["expected_keys"] = w
@@ -181,7 +190,7 @@ def run(prop, seed, budget, ctx):
         if mo is not None and "error" not in mo and "ok" in mo.get("model", {}) and mo.get("ser") is not None:
             m = mo["ser"]
             # (extra keys of a TypedDict alternative of a union under additional_properties: not in the model of serialization)
-            unmodelled = case["sopts"]["ap"] and "typeddict" in case["features"] and ({"union", "optional"} & set(case["features"]))
+            unmodelled = ("aggregate" in case["features"]) or (case["sopts"]["ap"] and "typeddict" in case["features"] and ({"union", "optional"} & set(case["features"])))
             if not str(m.get("crash", "")).startswith("ModelScope") and not unmodelled:
                 if "ok" in m: m = {"ok": canon_out(t, m["ok"])}
                 kcmp += 1
@@ -189,6 +198,16 @@ def run(prop, seed, budget, ctx):
         case["k_ok"] = k_ok
         if why: case.update(kind="P", why=why); failures.append(case); hist["P:" + why[0].split(":")[0]] += 1
         elif k_ok is False: kbad += 1; case.update(kind="K", why="model and implementation disagree"); failures.append(case)
+    if prop == "C05":
+        from discr import run_discr
+        df, dn, dd, dh = run_discr(seed, budget, want=("roundtrip",))
+        for f in df: f["features"] = f.get("features", []); hist["P:" + f["why"][0]] += 1
+        failures += df; distinct |= dd
+        for k, v in dh.items(): hist["discriminated:" + k] += v
+        return {"evaluations": len(meta) + dn, "distinct_nontrivial": len(distinct),
+                "rule": "generated types x values obtained by deserializing valid data x random options; plus discriminated unions (serialize adds the discriminator, the value "
+                        "round-trips); non-trivial = non-leaf type; distinct by (type, datum, options)",
+                "samples": samples, "histograms": dict(hist), "correspondence": {"compared_with_model": kcmp, "disagreements": kbad}, "failures": failures}
     return {"evaluations": len(meta), "distinct_nontrivial": len(distinct),
             "rule": "generated types x values obtained by deserializing valid data x random exclude_none / exclude_defaults / additional_properties; "
                     "non-trivial = non-leaf type; distinct by (type, datum, options)",
